@@ -4,8 +4,8 @@
     (depth <= 2, width <= 3), switches, the type predicate over the pool and the annotated-variable
     machine (histories of <= Depth actions), checks MatchTyped / Typed / the Types theorems and
     prints what spec/Pattern.tla computes for each; every line is replayed in the real interpreter:
-    a pair three ways (declaration, switch arm, lambda parameter(s)) comparing outcome class,
-    bindings, the arm that ran and `x is T` for every annotated name.
+    a pair as declaration, switch arm, lambda parameter(s), for clause and catch clause, comparing
+    outcome class, bindings, the arm that ran and `x is T` for every annotated name.
 (b) Trace validation: a seeded driver generates deeper random patterns / values and 20-30 step
     assignment histories on annotated variables, records what the interpreter did, and
     Trace_Pattern re-computes every event with Pattern!Match / Pattern!Apply.
@@ -122,10 +122,13 @@ def judge_match(ctx, it, res, r):
             return ("exp-ok:obs-nomatch", "the arm did not run")
     else:
         if not r["ok"]:
-            return None if o == "throw" else ("exp-fail:obs-" + out_class(st), "expected the call to raise")
+            return None if o == "throw" else ("exp-fail:obs-" + out_class(st), "expected the construct to raise")
         if o != "ok":
-            return ("exp-ok:obs-" + out_class(st), "expected the parameters to bind")
+            return ("exp-ok:obs-" + out_class(st), "expected the pattern to bind")
         val = st.get("v", {})
+        if ctx == "for":                 # a comprehension over [v]: one element
+            xs = val.get("v") if val.get("t") == "list" else None
+            val = xs[0] if xs and len(xs) == 1 else {}
     got = [R.canon_to_spec(c) for c in (val.get("v") or [])[1:]] if val.get("t") == "list" else None
     if got is None or len(got) != len(want) or any(not spec_eq(g, w) for g, w in zip(got, want)):
         return ("exp-ok:obs-wrong-binding", "bindings %s, specification binds %s" % (json.dumps(got), json.dumps(want)))
@@ -418,8 +421,8 @@ def run(tier):
         "evaluations": mc["replayed"] + tr["evaluations"],
         "distinct_nontrivial": mc["nontrivial"] + tr["nontrivial"],
         "rule": "MC: one REPLAY line per (pattern, value) pair / switch / value x type table / annotated-variable "
-                "transition enumerated by TLC; a pair is replayed in up to four contexts (declaration, switch arm, "
-                "single lambda parameter, parameter list); non-trivial = distinct (pattern skeleton, value kind, context) "
+                "transition enumerated by TLC; a pair is replayed in up to six contexts (declaration, switch arm, "
+                "single lambda parameter, parameter list, for clause, catch clause); non-trivial = distinct (pattern skeleton, value kind, context) "
                 "where the pattern is not a bare name or _, distinct (switch arms, value kind), distinct (value kind, type) "
                 "and distinct (action, declared type, value kinds, expected outcome) classes; trace: distinct random "
                 "(pattern skeleton, value kind) pairs and history steps",
